@@ -677,9 +677,31 @@ def t_inline_labels(facts, res, tier):
     # inline flag decides JMP vs RTS in generate_return
     key = "T-INLINE-LABELS:return-kind"
     res.inst(key)
-    t = expr_text(ret["body"])
-    if not re.search(r"if \w+\.inline\{self\.asm\(JMP", t) or "else {self.sasm(RTS)" not in t:
+    kind_if = None
+    for n in walk(ret["body"]):
+        if n.get("k") == "if" and re.match(r"^\w+\.inline$", expr_text(n["cond"]).replace(" ", "")) and n.get("else") is not None:
+            kind_if = n
+    def emits(b, what):
+        return any(x.get("k") == "mcall" and x["method"] in ("asm", "sasm") and x.get("args") and expr_text(x["args"][0]).endswith(what) for x in walk(b))
+    if kind_if is None or not emits(kind_if["then"], "JMP") or not emits(kind_if["else"], "RTS") or emits(kind_if["then"], "RTS") or emits(kind_if["else"], "JMP"):
         res.fail(key, facts.where(ret), "generate_return does not choose `JMP .endof` for inline functions and RTS otherwise")
+    else:
+        # the two ways of leaving differ in nothing but the instruction that leaves: whatever else one arm does
+        # (restoring a parked Y, flushing deferred increments) the other must do too, or `inline` changes the final state
+        def others(b):
+            st = b.get("stmts", []) if b.get("k") == "block" else [b]
+            out = []
+            for x in st:
+                t0 = expr_text(x).replace(" ", "")
+                if re.match(r"^self\.(asm|sasm)\((JMP|RTS)\b", t0) and not any(y.get("k") in ("if", "match") for y in walk(x)):
+                    continue
+                out.append(re.sub(r"\s+", "", expr_text(x)))
+            return out
+        a, b = others(kind_if["then"]), others(kind_if["else"])
+        key2 = "T-INLINE-LABELS:return-siblings"
+        res.inst(key2, True, {"inline_arm_also": a, "out_of_line_arm_also": b})
+        if a != b:
+            res.fail(key2, facts.where(ret, kind_if), "the inline and the out-of-line way of leaving a function do different things besides the JMP / RTS (inline arm: %s; out-of-line arm: %s): a register or state restored in one arm only makes the final state depend on the `inline` keyword" % (a or "nothing else", b or "nothing else"))
 
 
 # ------------------------------------------------------------------ csleep, protected regions
